@@ -128,6 +128,8 @@ fn localise(w: &World, segs: &HashMap<u32, RealSeg>, ideal: &HashMap<u32, RealSe
         let delivered = world::encode_path(&m)
             .and_then(|p| world::packet(w.ia[src as usize], w.ia[dst as usize], p))
             .map(|mut pkt| {
+                // the reference candidate may use other segments (timestamps) than the offered path
+                let now = now.max(m.segments.iter().map(|s| s.info_field.timestamp).max().unwrap_or(now));
                 let o = simulate(w, &mut pkt, now, src, 0, m.hop_field_count() + 2);
                 let l = o.last();
                 l.k == "deliver" && l.asn == dst
